@@ -29,3 +29,30 @@ Proof.
     destruct (tokenize_offsets text nominative cands Hwf k t Hk) as [_ [Hc Hl]]. split; assumption.
   - intros i t Hin. destruct (tokenize_offsets text nominative cands Hwf i t Hin) as [Hn _]. exact Hn.
 Qed.
+
+(* the index list of the tokenizer is strictly increasing (what C17 needs as cits_sorted) *)
+From Coq Require Import Sorting.Sorted.
+
+Lemma adjacent_sorted (l : list (nat * tok)) :
+  (forall l1 a b l2, l = l1 ++ a :: b :: l2 -> (fst a < fst b)%nat) ->
+  StronglySorted (fun a b => (fst a < fst b)%nat) l.
+Proof.
+  induction l as [|x l IH]; intros H; [constructor|].
+  constructor.
+  - apply IH. intros l1 a b l2 E. apply (H (x :: l1) a b l2). rewrite E. reflexivity.
+  - assert (IHs : StronglySorted (fun a b => (fst a < fst b)%nat) l).
+    { apply IH. intros l1 a b l2 E. apply (H (x :: l1) a b l2). rewrite E. reflexivity. }
+    destruct l as [|y l]; [constructor|].
+    assert (Hxy : (fst x < fst y)%nat) by (apply (H [] x y l); reflexivity).
+    constructor; [exact Hxy|].
+    apply StronglySorted_inv in IHs. destruct IHs as [_ Hy].
+    eapply Forall_impl; [|exact Hy]. intros z Hz. cbn beta in Hz. lia.
+Qed.
+
+Theorem tokenize_cits_sorted text nominative cands :
+  Forall (cand_wf text) cands ->
+  StronglySorted (fun a b => (fst a < fst b)%nat) (snd (tokenize text nominative cands)).
+Proof.
+  intros Hwf. apply adjacent_sorted. intros l1 [i t] [j t'] l2 E.
+  destruct (tokenize_increasing text nominative cands Hwf l1 i t j t' l2 E) as [H _]. exact H.
+Qed.
